@@ -3003,7 +3003,7 @@ class Entity(MutableMapping[str, str]):
                 self.map.by_class['worldspawn'].add(self)
         elif key_fold == 'targetname':
             _remove_copyset(self.map.by_target, (orig_val or '').casefold() or None, self)
-            if self in self.map.entities:
+            if self is self.map.spawn or self in self.map.entities:
                 self.map.by_target[str_val.casefold() or None].add(self)
         elif key_fold == 'nodeid':
             try:
